@@ -3,7 +3,7 @@
    prod, unit, sumbool -> OCaml's); nat, N, Z, positive stay the extracted inductive types;
    no Extract Constant. *)
 From Coq Require Extraction ExtrOcamlBasic.
-From NV Require Model.Base Model.Diag Model.Errors Model.Cli Model.NumRe Model.Lexer Spec.TruePos Spec.Normalise Spec.LexProps Model.Engine.
+From NV Require Model.Base Model.Diag Model.Errors Model.Cli Model.NumRe Model.Lexer Spec.TruePos Spec.Normalise Spec.LexProps Model.Engine Spec.CConst.
 Extraction Language OCaml.
 Set Extraction KeepSingleton.
 Extraction "../build/ml/nvmodel.ml"
@@ -15,4 +15,11 @@ Extraction "../build/ml/nvmodel.ml"
   Spec.TruePos.all_positions Spec.TruePos.true_pos Spec.Normalise.normalise Spec.Normalise.is_splice
   Spec.LexProps.c09_ok Spec.LexProps.c10_ok Spec.LexProps.items_of_spans Spec.LexProps.c09_item_ok Spec.LexProps.c10_item_ok
   Spec.LexProps.spans_tile
-  Model.Engine.run_file Model.Engine.chain Model.Engine.is_unrec.
+  Model.Engine.run_file Model.Engine.chain Model.Engine.is_unrec
+  Spec.CConst.int_consts Spec.CConst.float_consts Spec.CConst.char_consts Spec.CConst.string_consts Spec.CConst.cat
+  Spec.CConst.int_reprs Spec.CConst.float_reprs Spec.CConst.delims Spec.CConst.delims_all Spec.CConst.m_rests
+  Spec.CConst.guard_int Spec.CConst.guard_float Spec.CConst.guard_char Spec.CConst.guard_string
+  Spec.CConst.lex_one_ok Spec.CConst.lex_one_diag Spec.CConst.malformed Spec.CConst.malformed_open
+  Spec.CConst.shape_k1 Spec.CConst.shape_hex_e_suffix Spec.CConst.shape_hexfloat_empty_part
+  Spec.CConst.shape_hexfloat_hex_suffix Spec.CConst.shape_ucn Spec.CConst.shape_long_hex
+  Gen.LexTables.integer_suffixes Gen.LexTables.float_suffixes.
